@@ -84,8 +84,10 @@ def run(ctx):
         mats.append(m)
     for m in mats:
         for k in ([0, 1, 2, 3] if m.size <= 9 else [ctx.rng.randint(0, 6) if m.shape[0] < 12 else ctx.rng.randint(1, 3)]):
-            seedv = ctx.rng.randint(0, 10**6)
-            kind = ctx.rng.choice(["sha", "sha", "rs", "int"])
+            seedv = ctx.rng.choice([0, 0, 1, 2**33]) if ctx.rng.random() < 0.2 else ctx.rng.randint(0, 10**6)
+            kind = ctx.rng.choice(["sha", "sha", "rs", "int", "int"])
+            if kind == "rs":
+                seedv %= 2**32
             g = RecSHA256(seedv) if kind in ("sha", "int") else RecRandomState(seedv)
             dt = ctx.rng.choice([None, None, float, np.int8, np.uint8, np.int32, bool])
             mm = m.copy() if dt is None else m.astype(dt)
@@ -121,6 +123,11 @@ def run(ctx):
                 r2 = guarded(utils.permute_incidence_fixed_sums, mm, k, (seedv if kind == "int" else g2))
                 if r2[0] != "ok" or not np.array_equal(np.array(r2[1]), out):
                     why = "same seed, different numpy.random state: different result"
+                if why is None and kind == "int":     # the plain int (and its numpy twin) again, under yet another global state
+                    np.random.seed(ctx.rng.randint(0, 10**6))
+                    r3 = guarded(utils.permute_incidence_fixed_sums, mm, k, np.int64(seedv) if ctx.rng.random() < 0.5 else seedv)
+                    if r3[0] != "ok" or not np.array_equal(np.array(r3[1]), out):
+                        why = "an int seed is not equivalent to a fresh SHA256 with that seed / not reproducible"
             if why:
                 det.update({"issue": why, "returned": out.tolist()}); ctx.violation("oracle", det, site="permute_incidence_fixed_sums"); continue
             try:
